@@ -83,6 +83,21 @@ def case_hash(obj) -> int:
     return int.from_bytes(hashlib.blake2b(s.encode("utf8", "surrogatepass"), digest_size=8).digest(), "big")
 
 
+def debug_logging_case(case) -> bool:
+    """One case in 16 (a pure function of the case) is evaluated with the library's logger at DEBUG level."""
+    return case_hash(case) % 16 == 3
+
+
+def run_case(evaluate: Callable[[Any], "Outcome"], case) -> "Outcome":
+    if debug_logging_case(case):
+        from vp import env as _env
+        with _env.debug_logging():
+            out = evaluate(case)
+        out.labels.append("log-level:DEBUG")
+        return out
+    return evaluate(case)
+
+
 class Stats:
     def __init__(self):
         self.evaluations = 0
@@ -144,7 +159,7 @@ def drive(ctx, name: str, strategy, evaluate: Callable[[Any], Outcome], max_exam
         def prop(case):
             if reset is not None:
                 reset()
-            out = evaluate(case)
+            out = run_case(evaluate, case)
             if state["recording"]:
                 counter["n"] += 1
                 stats.record(case, out)
@@ -212,7 +227,7 @@ def enumerate_cases(ctx, name: str, iterable, evaluate: Callable[[Any], Outcome]
     from vp import env as _env
     for case in iterable:
         _env.reset_caches()
-        out = evaluate(case)
+        out = run_case(evaluate, case)
         stats.record(case, out)
         for d in out.discrepancies:
             if d.signature in excluded:
